@@ -1,6 +1,7 @@
 (** Property C10 -- resizing keeps the logical text and the cursor's place in it.
     Only pinned statements, closed by [exact], with their assumptions printed. *)
 From Avt Require Import Oracles.Rel Proofs.Inv Proofs.ReflowCore Proofs.Resize Proofs.ReflowText Proofs.ResizeText.
+From Avt Require Import Gen.BufFns Proofs.BufTie.
 
 (** Re-wrapping to any width >= 1 preserves the list of logical lines exactly (same number, same order, same cells, up to trailing default blanks of each logical line). *)
 Theorem C10_reflow_logical : forall ls c out, 1 <= c -> last_not_wrapped ls -> reflowM ls c = Ok out -> logical_t out = logical_t ls.
@@ -35,3 +36,15 @@ Theorem C10_resize_total : forall b nc nr cc cr, BInv b -> 1 <= nc -> 1 <= nr ->
 Proof. exact buf_resize_ok'. Qed.
 Check C10_resize_total : forall b nc nr cc cr, BInv b -> 1 <= nc -> 1 <= nr -> (nc = bcols b -> cr < Nat.max (brows b) nr) -> exists b' cc' cr', buf_resize b nc nr cc cr = Ok (b', (cc', cr')) /\ BInv b' /\ bcols b' = nc /\ brows b' = nr /\ blimit b' = blimit b /\ trim_needed b' = true /\ cr' < nr /\ (nc <> bcols b -> cc' < nc) /\ (nc = bcols b -> cc' = cc).
 Print Assumptions C10_resize_total.
+
+(** SOURCE TIE BY PROOF: the function is REGENERATED from the Rust source on every run (Gen/BufFns.v, translate/buf2coq.py: slice and Vec idioms into the model's list primitives, every Rust panic condition as a guard) and the hand-written model function is proved equal to it (=~ : equal up to the panic-site number) - an edit to the Rust function breaks this theorem (Line::extend, the join step of reflow) *)
+Theorem C10_source_extend : forall l other len, g_line_extend l other len =~ line_extend l other len.
+Proof. exact tie_line_extend. Qed.
+Check C10_source_extend : forall l other len, g_line_extend l other len =~ line_extend l other len.
+Print Assumptions C10_source_extend.
+
+(** Line::contract, the split step of reflow *)
+Theorem C10_source_contract : forall l len, g_line_contract l len = Ok (line_contract len l).
+Proof. exact tie_line_contract. Qed.
+Check C10_source_contract : forall l len, g_line_contract l len = Ok (line_contract len l).
+Print Assumptions C10_source_contract.
